@@ -859,6 +859,9 @@ class Interp:
         if isinstance(fv, Ref):
             fv = self.project(fv.frame, fv.frame.locals.get(fv.local), fv.proj)
         if isinstance(fv, Opaque) and isinstance(fv.what, tuple) and fv.what[0] == "fn":
+            mc = re.match(r"(?:std|core)::(.*)::(Ok|Err|Some)$", fv.what[1])
+            if mc:
+                return mk_variant("std::result::Result" if mc.group(2) in ("Ok", "Err") else "std::option::Option", mc.group(2), list(cargs))
             fargs = [self.subst(fr, a) for a in fv.what[2]]
             return self.call_named(fv.what[1], fargs, list(cargs), fr, t, depth, None)
         if isinstance(fv, Opaque) and isinstance(fv.what, tuple) and fv.what[0] == "closure":
@@ -894,7 +897,15 @@ class Interp:
             cargs = tup.fields if isinstance(tup, Agg) and tup.kind == "tuple" else [] if tup is UNIT else None
             if cargs is not None:
                 return self.apply_callable(args[0], cargs, fr, t, depth)
-        m = re.match(r"std::(result::Result::<T, E>|option::Option::<T>)::(map|map_err|and_then|unwrap_or|unwrap_or_else|ok|ok_or|ok_or_else|is_ok|is_err|is_some|is_none)$", name)
+        m = re.match(r"(?:std|core)::bool::<impl bool>::(then|then_some)$", name)
+        if m and len(args) == 2 and isinstance(args[0], AI) and args[0].const() is not None:
+            if not args[0].const():
+                return mk_variant("std::option::Option", "None", [])
+            return mk_variant("std::option::Option", "Some", [args[1] if m.group(1) == "then_some" else self.apply_callable(args[1], [], fr, t, depth)])
+        m = re.match(r"std::option::Option::<std::option::Option<T>>::flatten$", name)
+        if m and isinstance(args[0], Agg) and args[0].variant in ("Some", "None"):
+            return args[0].fields[0] if args[0].variant == "Some" else args[0]
+        m = re.match(r"std::(result::Result::<T, E>|option::Option::<T>)::(map|map_err|map_or|map_or_else|and_then|unwrap_or|unwrap_or_else|ok|ok_or|ok_or_else|is_ok|is_err|is_some|is_none)$", name)
         if m and args and isinstance(args[0], Agg) and args[0].variant in ("Ok", "Err", "Some", "None"):
             # std docs: the adapters of Result / Option on a value whose variant is known
             r, fn = args[0], m.group(2)
@@ -921,6 +932,10 @@ class Interp:
                 return r.fields[0] if good else args[1]
             if fn == "unwrap_or_else":
                 return r.fields[0] if good else self.apply_callable(args[1], r.fields[:1], fr, t, depth)
+            if fn == "map_or":
+                return self.apply_callable(args[2], [r.fields[0]], fr, t, depth) if good else args[1]
+            if fn == "map_or_else":
+                return self.apply_callable(args[2], [r.fields[0]], fr, t, depth) if good else self.apply_callable(args[1], r.fields[:1], fr, t, depth)
         h = self.handlers.get(name)
         if h is not None:
             r = h(self, name, args, fargs, fr, t)
@@ -1002,6 +1017,29 @@ class Interp:
                 return self.arith("Shl", x, km, ty)
             if fn in ("min", "max"):
                 return self.minmax(fn, x, args[1])
+            mm = re.match(r"(checked|saturating)_(add|sub|mul)$", fn)
+            if mm and isinstance(args[1], AI):
+                op = {"add": "Add", "sub": "Sub", "mul": "Mul"}[mm.group(2)]
+                # exact mathematical result first: does it fit the type on the whole cell?
+                wide = self.arith(op, AI("i128" if TY[ty][0] <= 64 else ty, x.lo, x.hi, x.dir, x.aff), AI("i128" if TY[ty][0] <= 64 else ty, args[1].lo, args[1].hi, args[1].dir, args[1].aff), "i128") \
+                    if TY[ty][0] <= 64 else None
+                if wide is None:
+                    raise Unsupported(name)
+                fits = wide.lo >= tmin(ty) and wide.hi <= tmax(ty)
+                out_lo, out_hi = wide.hi < tmin(ty), wide.lo > tmax(ty)
+                if mm.group(1) == "checked":
+                    if fits:
+                        return mk_variant("std::option::Option", "Some", [AI(ty, wide.lo, wide.hi, wide.dir, wide.aff)])
+                    if out_lo or out_hi:
+                        return mk_variant("std::option::Option", "None", [])
+                    raise Undecided("%s may overflow" % fn)
+                if fits:
+                    return AI(ty, wide.lo, wide.hi, wide.dir, wide.aff)
+                if out_lo:
+                    return AI(ty, tmin(ty), tmin(ty))
+                if out_hi:
+                    return AI(ty, tmax(ty), tmax(ty))
+                raise Undecided("%s may saturate" % fn)
             if fn in ("trailing_zeros", "count_ones", "leading_ones", "trailing_ones", "count_zeros"):
                 c = x.const()
                 w = TY[ty][0]
@@ -1117,6 +1155,16 @@ class Interp:
                 it.fields[0] = self.arith("Add", a, AI(a.ty, 1, 1), a.ty)
                 return mk_variant("std::option::Option", "Some", [a])
             raise Unsupported("next on %r" % (it,))
+        if re.match(r"std::option::Option::<&(mut |'\w+ )?T>::(copied|cloned)$", name) and isinstance(args[0], Agg):
+            v = args[0]
+            if v.variant == "None":
+                return v
+            if v.variant == "Some":
+                x = v.fields[0]
+                for _ in range(4):
+                    if isinstance(x, Ref):
+                        x = self.project(x.frame, x.frame.locals.get(x.local), x.proj)
+                return mk_variant("std::option::Option", "Some", [x])
         if name in ("std::any::TypeId::of", "core::any::TypeId::of"):
             return Opaque(("typeid", fargs[0]))
         if name in ("std::cmp::PartialEq::eq", "std::cmp::PartialEq::ne") and len(args) == 2:
